@@ -1601,12 +1601,12 @@ class Counter(object):
         self.counters = context.counters
 
     def addtocounter(self, other):
+        # Like LaTeX's \addtocounter and \setcounter: only stepping a
+        # counter resets the counters declared within it
         self.value += int(other)
-        self.resetcounters()
 
     def setcounter(self, other):
         self.value = int(other)
-        self.resetcounters()
 
     def stepcounter(self):
         self.value += 1
